@@ -327,6 +327,25 @@ def oracle_check(an, drv, rng, nenv, fuel=4000):
     return stats, viol
 
 
+LIT_ADDR = '6ZHGHH5Z5CTPCF5WCESXMGRSVK7QJETR63M3NY5FJCUYDHO57VTCMJOBGY'
+
+def twofield_envs(toks_text):
+    """exhaustive regions for the kind-check x address-check family: every TypeEnum, every OnCompletion, and for the address
+    fields the values the program can tell apart (zero, creator, the literal it names, a fresh one)"""
+    out = []
+    addr_vals = ['ZERO', 'CREATOR', LIT_ADDR, FRESH]
+    fields = [f for f in ('RekeyTo', 'CloseRemainderTo', 'AssetCloseTo', 'Sender') if (',' + f) in toks_text]
+    for te in range(1, 7):
+        for oc in range(0, 6):
+            for av in addr_vals:
+                for other in ('ZERO', FRESH):
+                    m = {'Fee': 1000, 'NumAppArgs': 0, 'Amount': 5, 'TypeEnum': te, 'OnCompletion': oc, 'ApplicationID': 7}
+                    for f in ('RekeyTo', 'CloseRemainderTo', 'AssetCloseTo', 'Sender'):
+                        m[f] = av if f in fields else other
+                    out.append((1, 0, {0: m}))
+    return out
+
+
 def exact_envs(info, toks_text):
     """exhaustive region enumeration for the direct-check family: every (size, index) the program can tell apart, every fee
     representative, both values of the free operand"""
